@@ -19,7 +19,9 @@ RULE = ("product of payload length x API (download/force_segment/open wb with si
         "odd-segment-count segmented, unknown-size stream); uploads: length x server style {expedited with/without "
         "size, segmented with/without size} x segment plan {full, short non-final segments} x read API/buffering/read "
         "sizes (uniform, and a small read followed by read-everything on raw / 2 / 3 / 7-byte buffered streams) "
-        "size x dictionary entry {absent, fixed-size number of width 1/2/4/8, string}. One state = one (case, protocol "
+        "x dictionary entry {absent, every fixed-size type, string}; plus a length sweep (every length up to 1100 quick / 2100 "
+        "thorough, + 7000, 10000 (20000, 70000)) with one download and one upload per length, API / framing / payload family "
+        "{position pattern, 00.., FF.., 80.., NUL tail, bytes that look like abort / block frames} rotating. One state = one (case, protocol "
         "step) of the client/server product; non-trivial = transfers with at least one segment frame or a predecessor")
 ASSUMPTIONS = [
     "the reference server is written from CiA 301 and accepts every legal client framing (short non-final segments, either size indication)",
@@ -41,8 +43,8 @@ for _i, _k in enumerate(k for k in OD_TYPES if k not in OD_INDEX):
 
 
 def bounds(tier):
-    return {"download_lengths": "0..24" if tier == "quick" else "0..64 + {127,128,889,890,1024,1025,1031,10000}",
-            "upload_lengths": "0..24" if tier == "quick" else "0..64 + {127,128,889,890,1024,1025,1031,10000}",
+    return {"download_lengths": "0..24 (full product); sweep 25..1100 + {7000,10000}" if tier == "quick" else "0..64 + {127,128,889,890,1024,1025,1031,10000} (full product); sweep 65..2100 + {7000,10000,20000,70000}",
+            "upload_lengths": "0..24 (full product); sweep as downloads" if tier == "quick" else "0..64 + {127,128,889,890,1024,1025,1031,10000}; sweep as downloads",
             "splits": "all compositions n<=9 (quick) / n<=12 (thorough); 1- and 2-cuts above"}
 
 
@@ -92,6 +94,17 @@ def cases(tier, seed):
                                     ("none", "seg3")[k % 2],
                                     "addr": list(ADDRS[(k + seed) % len(ADDRS)]) if od == "absent" else [OD_INDEX[od], 0],
                                     "seed": seed})
+    # length sweep beyond the exhaustive range: one download and one upload per length, API / framing / payload family
+    # rotating with the length; a few large transfers handed over in one piece
+    top = 1100 if tier == "quick" else 2100
+    for n in list(range(N + 1, top + 1)) + [7000, 10000] + ([20000, 70000] if tier == "thorough" else []):
+        k += 1
+        out.append({"dir": "dl", "n": n, "api": ("download", "open_size", "open_nosize", "force")[n % 4], "buf": (1024, 7, 0)[n % 3] if n % 4 in (1, 2) else 7,
+                    "pred": "none", "addr": list(ADDRS[(k + seed) % len(ADDRS)]), "seed": seed, "split": [n],
+                    "fill": simenv.FILLS[(n // 4) % len(simenv.FILLS)]})
+        out.append({"dir": "ul", "n": n, "style": ("seg_s", "seg_nos")[n % 2], "plan": (None, [3], [1, 6, 2, 7])[n % 3] if n < 3000 else None,
+                    "od": "absent", "mode": ("upload", "b1024:all", "raw", "b7:3+all")[(n // 2) % 4], "pred": "none",
+                    "addr": list(ADDRS[(k + seed) % len(ADDRS)]), "seed": seed, "fill": simenv.FILLS[(n // 3) % len(simenv.FILLS)]})
     # empty write() calls between the chunks
     for n in range(0, 17):
         for api in ("open_size", "open_nosize", "open_size_force"):
@@ -261,7 +274,7 @@ def do_download(node, case, payload, split):
 def run_download(case, st):
     n, seed = case["n"], case.get("seed", 0)
     text = case["api"].startswith("text")
-    payload = text_pattern(n, seed).encode("ascii") if text else simenv.pattern(n, seed)
+    payload = text_pattern(n, seed).encode("ascii") if text else simenv.fill(n, seed, case.get("fill", "pattern"))
     chunked = case["api"].startswith(("open", "text"))
     splits = [case["split"]] if "split" in case else (splits_for(n) if chunked else [[n]])
     idx, sub = case["addr"]
@@ -347,7 +360,7 @@ def do_upload(node, case):
 def run_upload(case, st):
     n, seed = case["n"], case.get("seed", 0)
     text = case["mode"] == "text"
-    data = text_pattern(n, seed).encode("ascii") if text else simenv.pattern(n, seed)
+    data = text_pattern(n, seed).encode("ascii") if text else simenv.fill(n, seed, case.get("fill", "pattern"))
     idx, sub = case["addr"]
     node, srv, bus = make()
     if not run_pred(node, srv, case, st):
